@@ -293,6 +293,15 @@ class Transformer(ast.NodeTransformer):
         if not self.comprehensions or len(node.generators) != 1:
             return node
         g = node.generators[0]
+        if (not g.is_async and self.comprehensions == 'tuple' and isinstance(g.target, ast.Tuple)
+                and all(isinstance(e, ast.Name) for e in g.target.elts)):
+            self.stats['comprehensions'] = self.stats.get('comprehensions', 0) + 1
+            targs = ast.arguments(posonlyargs=[], args=[ast.arg(arg=e.id) for e in g.target.elts], kwonlyargs=[], kw_defaults=[], defaults=[])
+            tcond = ast.Constant(None)
+            if g.ifs:
+                ttest = g.ifs[0] if len(g.ifs) == 1 else ast.BoolOp(op=ast.And(), values=list(g.ifs))
+                tcond = ast.Lambda(args=targs, body=ttest)
+            return _call('dictcomp_star', g.iter, ast.Lambda(args=targs, body=node.key), ast.Lambda(args=targs, body=node.value), tcond)
         if g.is_async or not isinstance(g.target, ast.Name):
             return node
         self.stats['comprehensions'] = self.stats.get('comprehensions', 0) + 1
